@@ -45,9 +45,10 @@ def main():
                 if ch and ch[0].split('::')[-1] not in panics.STD_MACROS and ch[0].split('::')[-1] not in lm:
                     continue
                 k = flow.loop_key(lp)
+                raw = f.qual + k[len(panics.anon_closures(f.qual)):]
                 hit = None
                 for rx, v, b in A:
-                    if rx.search(k):
+                    if rx.search(raw) or rx.search(k):
                         hit = (v, b)
                         break
                 if hit is None:
